@@ -30,7 +30,7 @@ PROPERTIES = {
         "jobs": [J("C05_kernel", quick={"cases": 12000, "shards": 16}, thorough={"cases": 600000, "shards": 16})],
     },
     "C01": {
-        "rule": "rapidcheck stateful histories on one live cell: start mesh from 6 construction families, or (1/4) a hub with 1-3 lobes glued on its faces (connected sums: cycles of three edges that bound no face), and (1/12) the node ids scattered over a point list of ~1e5 slots with two node-disjoint edges whose Cantor pairings differ by exactly 2^32 (+ random 1-to-3 / edge-split "
+        "rule": "rapidcheck stateful histories on one live cell: start mesh from 6 construction families, or (1/4) a hub with 1-3 lobes glued on its faces (connected sums: cycles of three edges that bound no face), and (1/40) the node ids scattered over a point list of ~1e5 slots with two node-disjoint edges whose Cantor pairings differ by exactly 2^32 (+ random 1-to-3 / edge-split "
                 "refinements, anisotropic scale, shear, radial bump, node noise, rigid motion, length units from nanometre-in-metres (3e-9) over um and unit scale to 1e4), then up to ~40 commands "
                 "drawn from {displace (noise / stretch / compress / bump / pinch), refresh normals, refine pass with or without swaps, "
                 "split / swap of the k-th edge, collapse of the k-th too-short edge, rebase, force-driven step}; the independent topology "
